@@ -2,6 +2,7 @@
 # Offline set-up: verify the tool chain and pre-parse every specification with SANY.  Fetches nothing.
 cd "$(dirname "$0")" || exit 1
 command -v java >/dev/null || { echo "java missing"; exit 1; }
+command -v tlapm >/dev/null || { echo "tlapm missing (proof modules spec/*Proofs.tla)"; exit 1; }
 [ -x /venv/bin/python ] || { echo "/venv/bin/python missing"; exit 1; }
 /venv/bin/python -c "import sympy, numpy, scipy, numdifftools, pandas, mpmath" || exit 1
 chmod +x check
